@@ -22,7 +22,7 @@ RULE = ("Model-based history testing: a generated OCP and a generated sequence (
         "a solve reports the iteration limit currently configured. Non-trivial = at least one mutation after the first transcription; distinct = SHA-1 of case JSON.")
 ASSUMPTIONS = ["a fresh build declares in canonical order; constraint order may differ from the evolved OCP (multiset comparison)", "ipopt is deterministic on identical problems"]
 
-MUTATORS = [("set_value", 3), ("set_initial", 3), ("subject_to", 3), ("clear_constraints", 1), ("add_objective", 2), ("method", 3), ("solver", 2), ("set_T", 2), ("set_t0", 2)]
+MUTATORS = [("set_value", 3), ("set_initial", 3), ("subject_to", 3), ("clear_constraints", 1), ("add_objective", 2), ("method", 3), ("solver", 3), ("set_T", 2), ("set_t0", 2)]
 QUERIES = [("sample", 3), ("value", 1), ("jacobian", 2), ("solve", 2), ("substage_sample", 1)]
 
 
@@ -101,7 +101,8 @@ def strategy_(draw):
                 mm = draw(gen.shooting_method(maxN=3, maxM=2, classes=(mcls,)))
             ops.append(["method", mm])
         elif kind == "solver":
-            ops.append(["solver", {"ipopt.max_iter": draw(st.integers(0, 3))}])
+            # either a new options dictionary, or the dictionary handed over last time edited in place and handed over again
+            ops.append(["solver", {"ipopt.max_iter": draw(st.integers(0, 3))}, draw(st.booleans())])
         elif kind == "set_T":
             ops.append(["set_T", draw(st.sampled_from([0.5, 1.0, 1.5, 2.0]))])
         elif kind == "set_t0":
@@ -228,9 +229,10 @@ def check(case, ctx):
         pending.clear()
         return not fails
 
+    live_opts = []
     for op in case["ops"]:
         kind = op[0]
-        history.append(kind)
+        history.append(kind if not (kind == "solver" and len(op) > 2 and op[2] and live_opts) else "solver(same dict edited in place)")
         N = model["method"]["N"]
         if kind == "set_value":
             d = decl[op[1]]
@@ -263,8 +265,13 @@ def check(case, ctx):
                     apply_value(B, ocp, d["name"], val)
                     d["value"] = val
         elif kind == "solver":
-            opts = dict(IPOPT_QUIET)
-            opts.update(op[1])
+            if len(op) > 2 and op[2] and live_opts:
+                live_opts[0].update(op[1])
+                opts = live_opts[0]
+            else:
+                opts = dict(IPOPT_QUIET)
+                opts.update(op[1])
+                live_opts[:] = [opts]
             ocp.solver("ipopt", opts)
             model["solver"] = ["ipopt", op[1]]
         elif kind == "set_T":
